@@ -220,7 +220,9 @@ fn edge_cases() -> Vec<FileCase> {
         bias: -7,
         ..ModelSpec::default()
     };
-    [empty, dict_only, wide]
+    // a file of a few hundred KiB: thousands of tag models (strided truncation / faults)
+    let big = crate::checks::c14::large_model(&crate::checks::c14::LargeCase { n_tag_models: 5000, n_char_ngrams: 300, n_words: 40 }).spec;
+    [empty, dict_only, wide, big]
         .into_iter()
         .map(|spec| FileCase { spec, texts: texts.clone(), trailing: vec![1, 2, 3] })
         .collect()
